@@ -7,7 +7,7 @@ import numpy as _np
 import scipy.spatial.transform as _sst
 
 from .arr import NP_INSTANCE, SymArray, emap, has_sym, oarr, wrap
-from .core import CTX, S, ufcall
+from .core import CTX, S, ufcall, toz
 from .rot import SymRot
 
 _saved = []  # (module, name, old)
@@ -90,7 +90,7 @@ def original(modname, name):
 
 
 # ---------------------------------------------------------------------------- cuts
-def elementwise_cut(fname, orig, nargs=None):
+def elementwise_cut(fname, orig, nargs=None, dom=None):
     """abstract an element-wise array function f(a1..ak)->array as an uninterpreted function per element.
     In concrete mode the registered callable evaluates the real function on scalars."""
 
@@ -103,7 +103,11 @@ def elementwise_cut(fname, orig, nargs=None):
     def stub(*args):
         if not any(has_sym(a) for a in args):
             return orig(*args)
-        return emap(lambda *e: ufcall(fname, [x if isinstance(x, S) else x for x in e]), *args)
+        def one(*e):
+            e = [x if isinstance(x, S) else S(toz(x)) for x in e]
+            return ufcall(fname, e, dom=dom(*[x.z for x in e]) if dom is not None else None)
+
+        return emap(one, *args)
 
     stub.__name__ = f"cut_{fname}"
     return stub
